@@ -74,6 +74,14 @@ func c17r1(r *R) {
 	if o.Check(recv != nil && store != nil && shut != nil && lnClose != nil, "watcher lacks one of: wait for ctx.Done (%v), inShutdown.Store(true) (%v), HTTPServer.Shutdown (%v), ln.Close (%v)", recv != nil, store != nil, shut != nil, lnClose != nil) {
 		o.AtI(recv, store, shut, lnClose)
 		o.Check(instrDominates(recv, store), "inShutdown is set before the context is done")
+		// the drain runs under a context that is still live: Shutdown gives up at its first look at a done context, and
+		// this goroutine gets here only once server.ctx is done
+		if a := callOf(shut).Args; len(a) >= 2 {
+			ce := c.Expr(a[1])
+			live := ce == "context.Background()" || ce == "context.TODO()" || strings.HasPrefix(ce, "context.WithoutCancel(") ||
+				((strings.HasPrefix(ce, "context.WithTimeout(context.Background(), ") || strings.HasPrefix(ce, "context.WithDeadline(context.Background(), ")) && strings.HasSuffix(ce, "#0"))
+			o.Check(live, "HTTPServer.Shutdown is given the context %s: it must not be done already (the server's own context is, at this point), or Shutdown returns at once and Serve reports 'closed' with HTTP/1.1 exchanges still in flight", ce)
+		}
 		o.Check(instrDominates(store, lnClose), "the listener is closed before inShutdown is set: the accept loop would return the raw accept error instead of ErrServerClosed")
 		o.Check(instrDominates(store, shut), "the HTTP/1.1 server is shut down before inShutdown is set: serveHTTP1 would cancel the server context as if the HTTP server died")
 		o.Check(instrDominates(shut, lnClose), "the listener is closed before the HTTP/1.1 server has drained: Serve would return while exchanges are still in flight")
@@ -130,6 +138,38 @@ func c17r2(r *R) {
 			if !hasGuard(gs, "+((net.Listener).Accept(p1)#1 != nil)") {
 				o.AtI(ret).Fail("Serve returns from the accept loop on a non-error edge; guards %v", gs)
 			}
+		}
+	})
+	// 'server closed' is reported with the listening socket closed: every return of that value runs the deferred (or a
+	// direct) ln.Close()
+	var closers []ssa.Instruction
+	eachInstr(serve, func(i ssa.Instruction) {
+		if d, ok := i.(*ssa.Defer); ok && calleeName(&d.Call) == "(net.Listener).Close" && c.Expr(d.Call.Value) == "p1" {
+			closers = append(closers, i)
+		}
+		if isCall(i, "(net.Listener).Close") {
+			if _, isDefer := i.(*ssa.Defer); !isDefer && c.Expr(callOf(i).Value) == "p1" {
+				closers = append(closers, i)
+			}
+		}
+	})
+	o4 := r.Ob("C17.R2", "closed-means-listener-closed:"+funcName(serve)).At(serve.Pos())
+	eachInstr(serve, func(i ssa.Instruction) {
+		ret, ok := i.(*ssa.Return)
+		if !ok {
+			return
+		}
+		for _, vc := range c.valueCases(retValue(ret, 0), i.Block()) {
+			if vc.E != "http.ErrServerClosed" {
+				continue
+			}
+			dom := false
+			for _, cl := range closers {
+				if instrDominates(cl, i) {
+					dom = true
+				}
+			}
+			o4.AtI(i).Check(dom, "Serve returns http.ErrServerClosed on a path that has neither deferred nor called ln.Close(): the socket keeps accepting TCP connections nobody serves")
 		}
 	})
 	sd := c.Method("pkg/proxyserver", "Server", "shuttingDown")
